@@ -45,3 +45,14 @@ claim("C02", "other",
       "Field-by-field inverse argument over the MIR of make_move / unmake_move and their callees: equal write sets, history as a strict stack, multiplicity-faithful containers, counter and en-passant file restored under matching predicates from the matching record, undo_move_piece the case-by-case reverse of move_piece with identical arguments, a make-then-unmake legality probe on every path, and no interior mutability in Board. Holds for all positions, moves and nesting depths because it is an argument about the code, not about sampled states.",
       "assumes generated moves (captured piece matches the board); bitboard |= / &= !mask inverse-ness for ill-formed moves is value-level and not decided.",
       "static analysis: who-may-write summaries + path enumeration + symbolic slices over rustc MIR", "DESIGN.md section 3 C02")
+
+
+claim("C03", "other",
+      "Decision tables read off the MIR of make_move / make_move_castling_checks / move_piece (constraints on every path to each effect, independent of arm order) compared with the rules: the castling-right revocation relation equals the FIDE table row for row and rights only ever go to Unavailable from a copied-forward record; half-move clock, en-passant file, full-move number and piece relocation (quiet, capture, en passant, castling rook) follow the rules; the record of earlier positions is multiplicity-faithful. Covers arbitrary histories because each move applies the same verified transition.",
+      "assumes generated moves whose flags describe them truthfully; the generators themselves are C01/C06.",
+      "static analysis: decision-table extraction from rustc MIR vs rules-of-chess oracle", "DESIGN.md section 3 C03")
+
+claim("C04", "other",
+      "Inductive invariant key == from-scratch key: type-resolved who-may-write over the hashed components (a write from anywhere else in the crate is a violation), and for every allowed writer a control-equivalence pairing of each component write with the toggle of the matching table word and arguments (pieces, side, en-passant out/in, 12 guarded castling revocations, 4 guarded reverts), constructors computing the key last, and identical table fields / index maps in the from-scratch function and the mutators. Path independence over all histories follows by induction.",
+      "assumes XOR-toggle semantics and generated moves; FEN equality additionally needs C07.",
+      "static analysis: who-may-write + control-equivalence pairing + symbolic index-map comparison over rustc MIR", "DESIGN.md section 3 C04")
